@@ -29,25 +29,25 @@ where
         // and write that to the fn write_xml(&self, writer: &mut W) -> WriterResult<()> {
 
         writeln!(writer, "Rc::new(restrictions::Restrictions {{")?;
-        if let Some(min_inclusive) = &self.min_inclusive {
+        if let Some(min_inclusive) = numeral::<i32>(self.min_inclusive.as_deref()) {
             writeln!(writer, "   min_inclusive: Some({min_inclusive}), ")?;
         }
-        if let Some(max_inclusive) = &self.max_inclusive {
+        if let Some(max_inclusive) = numeral::<i32>(self.max_inclusive.as_deref()) {
             writeln!(writer, "   max_inclusive: Some({max_inclusive}), ")?;
         }
-        if let Some(min_exclusive) = &self.min_exclusive {
+        if let Some(min_exclusive) = numeral::<i32>(self.min_exclusive.as_deref()) {
             writeln!(writer, "   min_exclusive: Some({min_exclusive}), ")?;
         }
-        if let Some(max_exclusive) = &self.max_exclusive {
+        if let Some(max_exclusive) = numeral::<i32>(self.max_exclusive.as_deref()) {
             writeln!(writer, "   max_exclusive: Some({max_exclusive}), ")?;
         }
-        if let Some(length) = &self.length {
+        if let Some(length) = numeral::<usize>(self.length.as_deref()) {
             writeln!(writer, "   length: Some({length}), ")?;
         }
-        if let Some(min_length) = &self.min_length {
+        if let Some(min_length) = numeral::<usize>(self.min_length.as_deref()) {
             writeln!(writer, "   min_length: Some({min_length}), ")?;
         }
-        if let Some(max_length) = &self.max_length {
+        if let Some(max_length) = numeral::<usize>(self.max_length.as_deref()) {
             writeln!(writer, "   max_length: Some({max_length}), ")?;
         }
 
@@ -65,6 +65,12 @@ where
 
         Ok(())
     }
+}
+
+/// A facet value is copied into the generated code as a number; anything that is not a numeral of the
+/// helper's type (a date, a decimal, arbitrary text) is left out.
+fn numeral<T: std::str::FromStr + std::fmt::Display>(value: Option<&str>) -> Option<T> {
+    value.and_then(|v| v.trim().parse::<T>().ok())
 }
 
 pub fn build_restrictions<'n>(restriction: Node<'n, 'n>) -> Restrictions {
